@@ -67,6 +67,7 @@ func Explore(h Harness, o Options) Stats {
 	seen := map[string]struct{}{}
 	stack := []frame{{}}
 	multi0 := MultiAccessor
+	var prevChoices []int
 	// determinism obligation: the first schedule is executed twice with identical logs
 	{
 		a, oa, la := runOnce(h, o, nil, nil, true)
@@ -163,8 +164,9 @@ func Explore(h Harness, o Options) Stats {
 			return r
 		}
 		if len(viols) > 0 {
-			st.Violations += confirmAndReport(h, o, viols, choices)
+			st.Violations += confirmAndReport(h, o, viols, choices, prevChoices)
 		}
+		prevChoices = choices
 	}
 	st.States = len(seen)
 	if !o.Prune {
@@ -232,7 +234,7 @@ func Replay(h Harness, o Options, choices []int) ([]Viol, []string, Outcome) {
 
 // confirmAndReport re-executes a violating schedule 5 times; the same violation keys must
 // come back every time, otherwise the harness is broken (exit 2), never a VIOLATION.
-func confirmAndReport(h Harness, o Options, viols []Viol, choices []int) int {
+func confirmAndReport(h Harness, o Options, viols []Viol, choices []int, prev []int) int {
 	// the replay always runs to completion (the exploring execution may have been cut by
 	// pruning right after an invariant violation), so it must show at least the same keys
 	want := map[string]bool{}
@@ -248,11 +250,49 @@ func confirmAndReport(h Harness, o Options, viols []Viol, choices []int) int {
 		for _, x := range v {
 			got[x.Key] = true
 		}
+		missing := ""
 		for key := range want {
 			if !got[key] {
-				fmt.Fprintf(os.Stderr, "verifmc: violation %q not reproducible on replay %d (harness %s): replay shows %q\nchoices %v\n", key, k, h.Name, violKeys(v), choices)
+				missing = key
+			}
+		}
+		if missing != "" {
+			// Not reproducible from a fresh world.  The harness resets its own state between
+			// executions, so the remaining suspect is state kept by the CODE UNDER TEST across
+			// executions (package-level caches, pools).  A server process lives through many
+			// connections/requests, so that is real behaviour: try to reproduce the violation
+			// as "previous execution, then this one" and report it as history-dependent.
+			ok := 0
+			for r := 0; r < 3 && prev != nil; r++ {
+				Replay(h, o, prev)
+				v2, log2, _ := Replay(h, o, choices)
+				g2 := map[string]bool{}
+				for _, x := range v2 {
+					g2[x.Key] = true
+				}
+				if g2[missing] {
+					ok++
+					trace = append([]string{"-- after a previous execution with choices " + fmt.Sprint(prev) + " in the same process:"}, log2...)
+				}
+			}
+			if ok < 2 {
+				fmt.Fprintf(os.Stderr, "verifmc: violation %q not reproducible on replay %d (harness %s): replay shows %q\nchoices %v\n", missing, k, h.Name, violKeys(v), choices)
 				os.Exit(2)
 			}
+			n := 0
+			seen := map[string]bool{}
+			for _, x := range viols {
+				if seen[x.Key] {
+					continue
+				}
+				seen[x.Key] = true
+				n++
+				if o.Report != nil {
+					x.Desc = "[depends on state the code under test keeps across executions in one process] " + x.Desc
+					o.Report(x, choices, trace)
+				}
+			}
+			return n
 		}
 		if k == 0 {
 			all = append(all, v...)
